@@ -144,3 +144,180 @@ func zzH_C05_lookalike() {
 	verifAssert(len(in.got) == 0, "wrapper wrote to the remote side on its own")
 	verifReach("transcript")
 }
+
+// ---- a whole download session through the wrapper: trigger -> handler -> ACT/CFG -> files -> EXIT, against the real
+// server-side logic of tsz; afterwards the wrapper is transparent again (session pointer cleared on every exit)
+
+type zzQueue5 struct{ ch chan []byte }
+
+func (q *zzQueue5) Read(p []byte) (int, error) {
+	b := <-q.ch
+	return copy(p, b), nil
+}
+func (q *zzQueue5) Write(p []byte) (int, error) {
+	c := make([]byte, len(p))
+	copy(c, p)
+	q.ch <- c
+	return len(p), nil
+}
+
+type zzToServer5 struct {
+	peer   *trzszTransfer
+	direct []byte // what reached the remote side while no transfer claimed the stream
+	filter *TrzszFilter
+}
+
+func (w *zzToServer5) Write(p []byte) (int, error) {
+	c := make([]byte, len(p))
+	copy(c, p)
+	w.peer.addReceivedData(c, false)
+	return len(p), nil
+}
+func (w *zzToServer5) Close() error { return nil }
+
+func zzH_C05_session() {
+	root := verifFSRoot()
+	sroot := root[:len(root)-4] + "src"
+	verifFSAddDir(sroot)
+	n := verifNondetRange(0, verifBound("SIZE"))
+	content := make([]byte, n)
+	for i := range content {
+		content[i] = verifNondetByte()
+		verifAssume(content[i] >= 'A') // base64 mode with the identity coder stub (symbolic build)
+		verifAssume(content[i] <= 'Z')
+	}
+	verifFSAddFile(sroot+"/a", content)
+	verifFSBegin()
+
+	toClient := &zzQueue5{make(chan []byte, 200)}
+	term := &zzCap5{}
+	V := newTransfer(toClient, nil, false, nil) // the server's transfer object writes to the wrapper's remote-output side
+	V.transferConfig.Timeout = 0
+	toServer := &zzToServer5{peer: V}
+	f := &TrzszFilter{clientOut: term, serverIn: toServer, serverOut: toClient}
+	f.options.TerminalColumns = 80
+	f.defaultDownloadPath.Store(&root)
+	go f.wrapOutput()
+
+	outcome := verifNondetRange(0, 2) // 0 normal, 1 the server fails after the handshake, 2 the user stops the transfer
+	args := &tszArgs{}
+	args.Timeout = 0
+	args.Bufsize.Size = 1024
+	args.Quiet = verifNondetBool()
+	args.Overwrite = verifNondetBool()
+	files := []*sourceFile{{PathID: 0, AbsPath: sroot + "/a", RelPath: []string{"a"}, Size: int64(n)}}
+	if outcome == 1 {
+		files[0].AbsPath = sroot + "/missing" // the server cannot open its file
+	}
+	var serr error
+	sdone := false
+	go func() {
+		serr = sendFiles(V, files, args, tmuxModeType(0), 0)
+		if serr != nil {
+			V.serverError(serr)
+		}
+		sdone = true
+	}()
+	toClient.ch <- []byte("\x1b7\x07::TRZSZ:TRANSFER:S:1.1.5:0000000000100\r\n")
+	verifQuiesce()
+	if outcome == 2 {
+		if t := f.transfer.Load(); t != nil {
+			t.stopTransferringFiles(false)
+		}
+	}
+	for i := 0; i < 6 && !(sdone && f.transfer.Load() == nil); i++ {
+		verifAdvanceTime()
+		verifQuiesce()
+	}
+	verifAssert(sdone, "the server side did not finish")
+	verifAssert(f.transfer.Load() == nil, "the wrapper still holds the session after the transfer ended")
+	if outcome == 0 {
+		verifAssert(serr == nil, "transfer failed over a fault-free connection")
+		got := verifFSContent(root + "/a")
+		verifAssert(len(got) == n, "downloaded file length")
+		for i := 0; i < n && i < len(got); i++ {
+			verifAssert(got[i] == content[i], "downloaded file content")
+		}
+		verifReach("downloaded")
+	} else {
+		verifReach("ended-abnormally")
+	}
+	// transparent again: remote output reaches the terminal unmodified
+	before := len(term.got)
+	probe := []byte{verifNondetByte(), verifNondetByte(), verifNondetByte()}
+	for _, c := range probe {
+		verifAssume(c != ':')
+	}
+	toClient.ch <- probe
+	verifQuiesce()
+	verifAssert(len(term.got) == before+3, "remote output not forwarded after the transfer ended")
+	if len(term.got) == before+3 {
+		for i := range probe {
+			verifAssert(term.got[before+i] == probe[i], "remote output altered after the transfer ended")
+		}
+	}
+	verifReach("transparent-again")
+}
+
+// the upload direction: trigger of trz -> handler -> uploadFiles against the real server-side logic of trz (recvFiles)
+func zzH_C05_uploadSession() {
+	root := verifFSRoot() // the server's destination directory
+	sroot := root[:len(root)-4] + "src"
+	verifFSAddDir(sroot)
+	n := verifNondetRange(0, verifBound("SIZE"))
+	content := make([]byte, n)
+	for i := range content {
+		content[i] = verifNondetByte()
+		verifAssume(content[i] >= 'A')
+		verifAssume(content[i] <= 'Z')
+	}
+	verifFSAddFile(sroot+"/a", content)
+	hadOld := verifNondetBool()
+	if hadOld {
+		verifFSAddFile(root+"/a", []byte("old"))
+	}
+	verifFSBegin()
+	toClient := &zzQueue5{make(chan []byte, 200)}
+	term := &zzCap5{}
+	V := newTransfer(toClient, nil, false, nil)
+	V.transferConfig.Timeout = 0
+	f := &TrzszFilter{clientOut: term, serverIn: &zzToServer5{peer: V}, serverOut: toClient}
+	f.options.TerminalColumns = 80
+	f.oneTimeUploadFiles = []string{sroot + "/a"}
+	go f.wrapOutput()
+	args := &trzArgs{Path: root}
+	args.Timeout = 0
+	args.Bufsize.Size = 1024
+	args.Quiet = verifNondetBool()
+	args.Overwrite = verifNondetBool()
+	var serr error
+	sdone := false
+	go func() {
+		serr = recvFiles(V, args, tmuxModeType(0), 0)
+		if serr != nil {
+			V.serverError(serr)
+		}
+		sdone = true
+	}()
+	toClient.ch <- []byte("\x1b7\x07::TRZSZ:TRANSFER:R:1.1.5:0000000000100\r\n")
+	verifQuiesce()
+	for i := 0; i < 6 && !(sdone && f.transfer.Load() == nil); i++ {
+		verifAdvanceTime()
+		verifQuiesce()
+	}
+	verifAssert(sdone, "the server side did not finish")
+	verifAssert(serr == nil, "upload failed over a fault-free connection")
+	verifAssert(f.transfer.Load() == nil, "the wrapper still holds the session after the transfer ended")
+	name := "a"
+	if hadOld && !args.Overwrite {
+		name = "a.0"
+		old := verifFSContent(root + "/a")
+		verifAssert(string(old) == "old", "pre-existing file modified without -y")
+	}
+	got := verifFSContent(root + "/" + name)
+	verifAssert(len(got) == n, "uploaded file length")
+	for i := 0; i < n && i < len(got); i++ {
+		verifAssert(got[i] == content[i], "uploaded file content")
+	}
+	verifReach("uploaded")
+}
